@@ -105,8 +105,17 @@ static uint64_t final_state(int rc)
 	int sv[6] = { u[0].fragsize, u[0].downenc, u[0].lazy, u[0].conn, u[0].authenticated, u[0].authenticated_raw };
 	h128_update(&h, sv, sizeof sv);
 	for (int i = 0; i < W.proc[1].nsys; i++) h128_update(&h, W.proc[1].sys[i], strlen(W.proc[1].sys[i]));
-	for (int i = 0; i < ns_nwr; i++) { h128_update(&h, &ns_wr[i].proc, 4); h128_update(&h, &ns_wr[i].h0, 8); }
+	/* what each side wrote to its tun, in that side's order; how the two sides' writes interleave is timing (an out-of-sequence
+	 * reply makes the client ping sooner, by design) and not part of the comparison */
+	for (int side = 0; side <= 1; side++) for (int i = 0; i < ns_nwr; i++) if (ns_wr[i].proc == side) { h128_update(&h, &ns_wr[i].proc, 4); h128_update(&h, &ns_wr[i].h0, 8); }
 	h128_final(&h, o);
+	if (getenv("C06_STATE_DEBUG")) {
+		dprintf(2, "final-state %016llx: rc %d qtype %d downenc %c lazy %d conn %d uid %d cstate %d exit %d tunw %d enc %s | srv fragsize %d downenc %c lazy %d conn %d auth %d rawauth %d | sys %d:", (unsigned long long)(o[0] | 1), rc, v[0], v[1] > ' ' ? v[1] : '-', v[2], v[3], v[4], v[5], v[6], v[7], dn, sv[0], sv[1] > ' ' ? sv[1] : '-', sv[2], sv[3], sv[4], sv[5], W.proc[1].nsys);
+		for (int i = 0; i < W.proc[1].nsys; i++) dprintf(2, " [%s]", W.proc[1].sys[i]);
+		dprintf(2, " | writes:");
+		for (int i = 0; i < ns_nwr; i++) dprintf(2, " %d:%016llx", ns_wr[i].proc, (unsigned long long)ns_wr[i].h0);
+		dprintf(2, "\n");
+	}
 	return o[0] | 1;
 }
 
